@@ -58,9 +58,20 @@ def scripted_responder(agent, cfgref, replies, names):
             return []
         if state["i"] >= len(replies):
             # script exhausted: a terminal reply (no varbinds) so that a walk that goes on is not left to time out
+            state["extra"] = state.get("extra", 0) + 1
+            if replies and isinstance(replies[-1], str) and replies[-1].endswith("-forever"):
+                if state["extra"] > 30:
+                    return []                                   # ... then silence: the client's timeout ends whatever still runs
+                return [(agent.reply(cfg, req, [], es={"toobig-forever": 1, "generr-forever": 5}[replies[-1]], ei=0), [])]
             return [(agent.reply(cfg, req, []), [])]
         r = replies[state["i"]]
         state["i"] += 1
+        if isinstance(r, str):
+            # replies that carry no data values at all: an error-status and an empty varbind list, or nothing (the datagram is lost)
+            if r == "drop":
+                return []
+            es = {"toobig": 1, "nosuchname": 2, "generr": 5, "toobig-forever": 1, "generr-forever": 5}[r]
+            return [(agent.reply(cfg, req, [], es=es, ei=0), [])]
         vbs = []
         for k, x in enumerate(r):
             n = names[tuple(x["oid"])]
